@@ -106,6 +106,13 @@ Proof.
   - rewrite H. destruct (rs_parse_iso (c :: t)); intros E; inversion E; eauto.
 Qed.
 
+Lemma rs_iso8601_P s i : head_is_P s = true -> rs_iso8601 s = Ok i -> exists r, i = I_rsdur r.
+Proof.
+  unfold rs_iso8601, lift_p, head_is_P, cur, ch_P. destruct (existsb is_surrogate s); [discriminate|].
+  destruct s as [|c t]; intros H; [discriminate|]. rewrite H.
+  destruct (rs_raw (c :: t)); intros E; inversion E; eauto.
+Qed.
+
 (* ------------------------------------------------------------------ _parse_common: TypeError exactly on the minute-absent region *)
 Lemma common_classes df s :
   match common_parse_df df s with
@@ -160,8 +167,8 @@ Qed.
 Definition rs_form (f : iform) : Prop :=
   match f with
   | F_start_end (I_p _) (I_p _) => True
-  | F_start_dur (I_p _) d => rs_shaped d
-  | F_dur_end d b => rs_shaped d /\ rs_shaped b
+  | F_start_dur (I_p _) (I_rsdur _) => True
+  | F_dur_end (I_rsdur _) b => rs_shaped b
   | _ => False
   end.
 
@@ -172,10 +179,10 @@ Proof.
   destruct (head_is_P first) eqn:HF; [|destruct (head_is_P last) eqn:HL].
   - destruct (rs_iso8601 first) as [d|] eqn:E1; [|discriminate]. simpl.
     destruct (rs_iso8601 last) as [b|] eqn:E2; [|discriminate]. simpl. intros E; inversion E; subst. simpl.
-    split; eapply rs_iso8601_shape; eauto.
+    destruct (rs_iso8601_P _ _ HF E1) as [r ->]. eapply rs_iso8601_shape; eauto.
   - destruct (rs_iso8601 first) as [a|] eqn:E1; [|discriminate]. simpl.
     destruct (rs_iso8601 last) as [d|] eqn:E2; [|discriminate]. simpl. intros E; inversion E; subst. simpl.
-    destruct (rs_iso8601_nonP _ _ HF E1) as [p ->]. eapply rs_iso8601_shape; eauto.
+    destruct (rs_iso8601_nonP _ _ HF E1) as [p ->]. destruct (rs_iso8601_P _ _ HL E2) as [r ->]. exact I.
   - destruct (rs_iso8601 first) as [a|] eqn:E1; [|discriminate]. simpl.
     destruct (rs_iso8601 last) as [b|] eqn:E2; [|discriminate]. simpl. intros E; inversion E; subst. simpl.
     destruct (rs_iso8601_nonP _ _ HF E1) as [p ->]. destruct (rs_iso8601_nonP _ _ HL E2) as [q ->]. exact I.
@@ -224,16 +231,174 @@ Proof.
     + apply exn_in_bind; [apply VO, interval_new_exn|intros _].
       apply exn_in_bind; [apply VO, interval_init_exn|intros _; exact I].
     + destruct ((p_kind p =? 1) || (p_kind q =? 1)); [simpl; auto|]. destruct ((p_kind p =? 2) && (p_kind q =? 2)); simpl; auto.
-  - destruct a as [p| |]; try contradiction. intros Hd.
-    apply exn_in_bind; [destruct d; simpl in *; try contradiction; auto|intros parts].
+  - destruct a as [p| |]; try contradiction. destruct d as [|r|]; try contradiction. intros _.
+    apply exn_in_bind; [exact I|intros parts].
     destruct (p_kind p =? 1); [|simpl; auto].
     apply exn_in_bind; [apply VO, dt_add_exn|intros W'].
     apply exn_in_bind; [apply VO, interval_new_exn|intros _].
     apply exn_in_bind; [apply VO, interval_init_exn|intros _; exact I].
-  - intros [Hd Hb]. destruct b as [p| |]; try (simpl; auto; fail).
-    apply exn_in_bind; [destruct d; simpl in *; try contradiction; auto|intros parts].
+  - destruct d as [|r|]; try contradiction. intros Hb. destruct b as [p| |]; try (simpl; auto; fail).
+    apply exn_in_bind; [exact I|intros parts].
     destruct (p_kind p =? 1); [|simpl; auto].
     apply exn_in_bind; [apply VO, dt_add_exn|intros W'].
     apply exn_in_bind; [apply VO, interval_new_exn|intros _].
     apply exn_in_bind; [apply VO, interval_init_exn|intros _; exact I].
+Qed.
+
+(* with date-time endpoints only the arithmetic can fail *)
+Definition all_dt (f : iform) : bool :=
+  match f with
+  | F_start_end (I_p p) (I_p q) => (p_kind p =? 1) && (p_kind q =? 1) || ((p_kind p =? 2) && (p_kind q =? 2)) || (p_kind p =? 1) || (p_kind q =? 1)
+  | F_start_dur (I_p p) _ => p_kind p =? 1
+  | F_dur_end _ (I_p p) => p_kind p =? 1
+  | _ => false
+  end.
+
+Lemma assemble_rs_dt o f : rs_form f -> all_dt f = true -> exn_in [E_ValueError; E_OverflowError] (assemble true o f).
+Proof.
+  destruct f as [a b|a d|d b]; unfold assemble, rs_form, all_dt.
+  - destruct a as [p| |]; try contradiction. destruct b as [q| |]; try contradiction. intros _ H.
+    destruct (p_kind p =? 1), (p_kind q =? 1), (p_kind p =? 2), (p_kind q =? 2); cbn [andb orb] in *; try discriminate;
+      try (apply exn_in_bind; [apply interval_new_exn|intros _]; apply exn_in_bind; [apply interval_init_exn|intros _; exact I]);
+      simpl; auto.
+  - destruct a as [p| |]; try contradiction. destruct d as [|r|]; try contradiction. intros _ H. rewrite H.
+    apply exn_in_bind; [exact I|intros parts].
+    apply exn_in_bind; [apply dt_add_exn|intros W'].
+    apply exn_in_bind; [apply interval_new_exn|intros _].
+    apply exn_in_bind; [apply interval_init_exn|intros _; exact I].
+  - destruct d as [|r|]; try contradiction. intros Hb H. destruct b as [p| |]; try discriminate. rewrite H.
+    apply exn_in_bind; [exact I|intros parts].
+    apply exn_in_bind; [apply dt_add_exn|intros W'].
+    apply exn_in_bind; [apply interval_new_exn|intros _].
+    apply exn_in_bind; [apply interval_init_exn|intros _; exact I].
+Qed.
+
+(* ... and with another kind of endpoint the assembly raises before any arithmetic *)
+Lemma assemble_rs_nondt o f : rs_form f -> all_dt f = false -> exn_in [E_TypeError; E_AttributeError] (assemble true o f).
+Proof.
+  destruct f as [a b|a d|d b]; unfold assemble, rs_form, all_dt.
+  - destruct a as [p| |]; try contradiction. destruct b as [q| |]; try contradiction. intros _ H.
+    destruct (p_kind p =? 1), (p_kind q =? 1), (p_kind p =? 2), (p_kind q =? 2); cbn [andb orb] in *; try discriminate; simpl; auto.
+  - destruct a as [p| |]; try contradiction. destruct d as [|r|]; try contradiction. intros _ H. rewrite H.
+    apply exn_in_bind; [exact I|intros parts; simpl; auto].
+  - destruct d as [|r|]; try contradiction. intros Hb H. destruct b as [p| |]; try (simpl; auto; fail). rewrite H.
+    apply exn_in_bind; [exact I|intros parts; simpl; auto].
+Qed.
+
+(* ------------------------------------------------------------------ finishing a single value *)
+Lemma finish_ip rs o p : exists v, finish rs o (normalize o (R_i (I_p p))) = Ok v.
+Proof.
+  unfold normalize. destruct (o_exact o).
+  - unfold finish. brk; eexists; reflexivity.
+  - destruct (p_kind p =? 3) eqn:K3.
+    + destruct (o_now o) as [[ny nm] nd]. unfold finish. cbn [p_kind]. simpl. eexists; reflexivity.
+    + destruct (p_kind p =? 2) eqn:K2.
+      * unfold finish. cbn [p_kind]. simpl. eexists; reflexivity.
+      * unfold finish. brk; eexists; reflexivity.
+Qed.
+
+Lemma rs_glue_exn r : exn_in [E_OverflowError] (rs_glue r).
+Proof.
+  unfold rs_glue, duration_native, DurParse.td_total_us, accum. cbn [bind f_is_zero f_zero].
+  unfold td_norm. brk; inl.
+Qed.
+
+Lemma normalize_other o r : (forall p, r <> R_i (I_p p)) -> normalize o r = r.
+Proof. unfold normalize. destruct (o_exact o); [reflexivity|]. destruct r as [[p| |]|f]; try reflexivity. intros H. destruct (H p eq_refl). Qed.
+
+(* ------------------------------------------------------------------ the whole chain, compiled backend, every string *)
+Definition interval_nondt (rs : bool) (s : list Z) : bool :=
+  match interval_parse (iso8601 rs) s with Ok f => negb (all_dt f) | Raise _ => false end.
+Definition interval_ok (rs : bool) (s : list Z) : bool :=
+  match interval_parse (iso8601 rs) s with Ok _ => true | Raise _ => false end.
+Definition rs_duration_overflow (s : list Z) : bool :=
+  match rs_iso8601 s with
+  | Ok (I_rsdur r) => match rs_glue r with Raise E_OverflowError => true | _ => false end
+  | _ => false
+  end.
+
+Section Chain.
+  Variable du : list Z -> bool -> bool -> result pval.
+  Hypothesis du_ok : forall s a b, out_ok (du s a b).
+
+  Theorem parse_total_rs_all : forall o s,
+    match parse_full du true o s with
+    | Ok _ => True
+    | Raise E_ValueError | Raise E_ParserError => True
+    | Raise E_TypeError => common_minute_absent s = true \/ interval_nondt true s = true
+    | Raise E_AttributeError => interval_nondt true s = true
+    | Raise E_OverflowError => rs_duration_overflow s = true \/ (interval_ok true s = true /\ interval_nondt true s = false)
+    | Raise _ => False
+    end.
+  Proof.
+    intros o s. unfold parse_full. destruct (is_now s); [exact I|].
+    unfold base_parse, interval_nondt, interval_ok, rs_duration_overflow. cbn [iso8601].
+    pose proof (rs_iso8601_ve s) as H1. pose proof (rs_iso8601_shape s) as S1.
+    destruct (rs_iso8601 s) as [i|e1].
+    - (* a single value *)
+      cbn [bind]. destruct i as [p|r|x ob].
+      + destruct (finish_ip true o p) as [v ->]. exact I.
+      + rewrite normalize_other by (intros p; discriminate). cbn [finish].
+        pose proof (rs_glue_exn r) as G. destruct (rs_glue r) as [xo|e]; [exact I|]. simpl in G. destruct G as [<-|[]]. cbn [bind]. left; reflexivity.
+      + destruct (S1 _ eq_refl).
+    - simpl in H1. destruct H1 as [<-|[]]. cbn [is_ve negb].
+      pose proof (interval_parse_exn rs_iso8601 [E_ValueError] s rs_iso8601_ve) as H2.
+      pose proof (interval_parse_rs_form s) as F2.
+      destruct (interval_parse rs_iso8601 s) as [f|e2].
+      + cbn [bind]. rewrite normalize_other by (intros p; discriminate). cbn [finish].
+        specialize (F2 f eq_refl).
+        destruct (all_dt f) eqn:A.
+        * pose proof (assemble_rs_dt o f F2 A) as H. destruct (assemble true o f) as [v|e]; [exact I|].
+          simpl in H. destruct H as [<-|[<-|[]]]; [exact I|]. right; split; reflexivity.
+        * pose proof (assemble_rs_nondt o f F2 A) as H. destruct (assemble true o f) as [v|e]; [exact I|].
+          simpl in H. destruct H as [<-|[<-|[]]]; [right|]; reflexivity.
+      + simpl in H2. assert (V : is_ve e2 = true) by (destruct H2 as [<-|[<-|[<-|[]]]]; reflexivity). rewrite V. cbn [negb].
+        pose proof (common_classes (o_day_first o) s) as H3.
+        destruct (common_parse_df (o_day_first o) s) as [p|e3].
+        * cbn [bind]. destruct (finish_ip true o p) as [v ->]. exact I.
+        * destruct e3; try contradiction; cbn [bind]; auto.
+          destruct (o_strict o); [exact I|].
+          pose proof (du_ok s (o_day_first o) (o_year_first o)) as D.
+          destruct (du s (o_day_first o) (o_year_first o)) as [p|e4].
+          -- cbn [bind]. destruct (finish_ip true o p) as [v ->]. exact I.
+          -- destruct e4; try contradiction; exact I.
+  Qed.
+End Chain.
+
+(* ------------------------------------------------------------------ strict=True never consults dateutil *)
+Lemma strict_no_oracle rs o s : o_strict o = true -> reaches_oracle rs o s = false.
+Proof.
+  intros H. unfold reaches_oracle. destruct (iso8601 rs s) as [|e1]; [reflexivity|].
+  destruct (interval_parse (iso8601 rs) s) as [|e2]; [apply andb_false_r|].
+  destruct (common_parse_df (o_day_first o) s) as [|e3]; [rewrite !andb_false_r; reflexivity|].
+  destruct e3; rewrite ?H; simpl; rewrite ?andb_false_r; reflexivity.
+Qed.
+
+Lemma oracle_independent du1 du2 rs o s : reaches_oracle rs o s = false -> parse_full du1 rs o s = parse_full du2 rs o s.
+Proof.
+  unfold parse_full, base_parse, reaches_oracle. destruct (is_now s); [reflexivity|].
+  destruct (iso8601 rs s) as [|e1]; [reflexivity|].
+  destruct (is_ve e1); [|reflexivity]. cbn [negb andb].
+  destruct (interval_parse (iso8601 rs) s) as [|e2]; [reflexivity|].
+  destruct (is_ve e2); [|reflexivity]. cbn [negb andb].
+  destruct (common_parse_df (o_day_first o) s) as [|e3]; [reflexivity|].
+  destruct e3; try reflexivity. destruct (o_strict o); [reflexivity|discriminate].
+Qed.
+
+(* when the oracle IS reached the result is the oracle's datetime (delivered by _normalize / parser.py) or ParserError *)
+Lemma oracle_reached du rs o s : reaches_oracle rs o s = true -> is_now s = false ->
+  parse_full du rs o s = match du s (o_day_first o) (o_year_first o) with
+                         | Ok p => finish rs o (normalize o (R_i (I_p p)))
+                         | Raise E_ValueError | Raise E_ParserError => Raise E_ParserError
+                         | Raise e => Raise e
+                         end.
+Proof.
+  unfold parse_full, base_parse, reaches_oracle. intros H ->.
+  destruct (iso8601 rs s) as [|e1]; [discriminate|].
+  destruct (is_ve e1); [|discriminate]. cbn [negb andb] in *.
+  destruct (interval_parse (iso8601 rs) s) as [|e2]; [discriminate|].
+  destruct (is_ve e2); [|discriminate]. cbn [negb andb] in *.
+  destruct (common_parse_df (o_day_first o) s) as [|e3]; [discriminate|].
+  destruct e3; try discriminate. destruct (o_strict o); [discriminate|].
+  destruct (du s (o_day_first o) (o_year_first o)) as [p|e9]; [reflexivity|]. destruct e9; reflexivity.
 Qed.
